@@ -162,7 +162,8 @@ func runOne(t *testing.T, sched simrt.Schedule, body func(w *simWorld) []Violati
 		time.Sleep(time.Until(simBaseTime))
 		disk := simdb.NewDisk()
 		w := newSimWorld(sched, disk)
-		w.rt.KeepTrace = os.Getenv("SIM_TRACE") != ""
+		dumpSched := os.Getenv("SIM_DUMP_SCHED") // debugging aid: write the event trace of the run with this schedule hash to $SIM_DUMP_SCHED_OUT
+		w.rt.KeepTrace = os.Getenv("SIM_TRACE") != "" || (dumpSched != "" && dumpSched == hashOf(sched))
 		func() {
 			defer func() {
 				if r := recover(); r != nil {
@@ -194,7 +195,9 @@ func runOne(t *testing.T, sched simrt.Schedule, body func(w *simWorld) []Violati
 		st.Tasks = len(w.rt.Tasks())
 		st.StateHash = hashOf(stableDump(disk.Dump()))
 		st.SchedHash = hashOf(sched)
-		if w.rt.KeepTrace {
+		if w.rt.KeepTrace && dumpSched != "" {
+			os.WriteFile(os.Getenv("SIM_DUMP_SCHED_OUT"), []byte(strings.Join(w.rt.Trace, "\n")+"\n"), 0o644)
+		} else if w.rt.KeepTrace {
 			fmt.Fprintln(os.Stderr, "  TASKS", w.liveTasks())
 			for _, l := range w.rt.Trace {
 				fmt.Fprintln(os.Stderr, "  |", l)
